@@ -294,6 +294,45 @@ def run_driver(binary, driver, args, outdir, timeout=3600):
     return {"cmd": cmd, "summaries": sums, "stdout": p.stdout, "aborted": aborted}
 
 
+def product_trace(config_files, prop, out_path, labels=None):
+    """zip the traces of the same call sequence executed under several
+    configurations into one product trace for TraceConfig.tla (transport
+    only: the comparison is done by TLC)"""
+    streams = []
+    for files in config_files:
+        evs = []
+        for fn in files:
+            with open(fn) as f:
+                evs += [json.loads(x) for x in f]
+        streams.append(evs)
+    n = min(len(s) for s in streams)
+    cnt = 0
+    with open(out_path, "w") as out:
+        out.write(json.dumps({"ev": "reset", "configs": labels or list(range(len(streams)))}) + "\n")
+        for i in range(n):
+            evs = [s[i] for s in streams]
+            kinds = [e.get("ev", "?") + ":" + str(e.get("op", "")) for e in evs]
+            e0 = evs[0]
+            if any(k != kinds[0] for k in kinds):
+                out.write(json.dumps({"ev": "x", "i": i + 1, "prop": prop, "what": "alignment", "kinds": kinds, "res": [0]}) + "\n")
+                break
+            if e0.get("ev") == "op":
+                res = [[e.get("tt"), e.get("nc"), e.get("res", "ok") if "res" in e else "ok"] for e in evs]
+            elif e0.get("ev") in ("reorder", "add_vars"):
+                res = [e.get("l2v") for e in evs]
+            elif e0.get("ev") == "obs":
+                res = [[[h[3], h[4], h[5], h[7], h[8]] for h in e.get("hs", [])] for e in evs]
+            else:
+                res = [0 for _ in evs]
+            out.write(json.dumps({"ev": "x", "i": i + 1, "prop": prop, "what": e0.get("ev", "?") + (":" + e0["op"] if "op" in e0 else ""),
+                                  "kinds": kinds, "res": res}) + "\n")
+            cnt += 1
+        if any(len(s) != n for s in streams):
+            out.write(json.dumps({"ev": "x", "i": n + 1, "prop": prop, "what": "length", "kinds": ["a", "a"],
+                                  "res": [len(s) for s in streams]}) + "\n")
+    return cnt
+
+
 # --------------------------------------------------------------------------
 # findings, evidence, verdict
 
